@@ -1274,6 +1274,30 @@ def check_namespace(ctx):
                          {'kind': 'table', 'what': 'namespace', 'impl': impl})
 
 
+def sexp_to_spec(t):
+    """the driver's (spec …) term -> spec dict"""
+    txt = lambda l: ''.join(chr(int(c)) for c in l)
+    opt = lambda x: None if x == 'none' else txt(x)
+
+    def fld(f):
+        return dict(zip(('name', 'def', 'type', 'ref', 'array', 'length', 'default', 'endian'), [opt(x) for x in f[1:]]))
+    return {'enums': [{'name': txt(e[1]), 'type': opt(e[2]), 'values': [{'name': txt(k), 'value': txt(v)} for k, v in e[3]]}
+                      for e in t[1]],
+            'fielddefs': [fld(f) for f in t[2]],
+            'records': [{'name': txt(r[1]), 'fields': [fld(f) for f in r[2]]} for r in t[3]],
+            'messages': [{'name': txt(m[1]), 'msgid': txt(m[2]), 'group': opt(m[3]), 'direction': opt(m[4]),
+                          'fields': [fld(f) for f in m[5]]} for m in t[4]]}
+
+
+def lean_witnesses(ctx):
+    """the specifications of Witness/C15.lean, printed by the driver from the Lean definitions themselves"""
+    from common import parse_sx
+    if not (ctx.driver is not None and ctx.driver.available):
+        return []
+    t = parse_sx(ctx.driver.ask(['witness C15'])[0])[0]
+    return [(kind, impl, sexp_to_spec(spec)) for kind, impl, spec in t]
+
+
 def run(ctx):
     rng = ctx.rng
     quick = ctx.tier == 'quick'
@@ -1298,6 +1322,9 @@ def run(ctx):
         for i, f in enumerate(sorted(os.listdir(cdir))):
             r = json.load(open(os.path.join(cdir, f)))
             cases.append(Case(f'c{i}', r.get('class', 'wf'), r['impl'], r['spec'], r.get('override', True), r.get('kind_hint')))
+    for i, (kind, impl, spec) in enumerate(lean_witnesses(ctx)):
+        cases.append(Case(f'lw{i}', 'known', impl, spec, kind=kind))
+        ctx.count('lean-witness:' + kind)
     k = 0
     for _ in range(n_wf):
         impl, spec = gen_wf_spec(rng, ctx.tier)
